@@ -596,6 +596,10 @@ nodesLoop:
 							panic(tc.errorf(cas, "multiple nil cases in type switch (first at %s)", positionOfNil))
 						}
 						positionOfNil = ex.Pos()
+						if name != "" && len(cas.Expressions) == 1 {
+							// The variable has the type of the expression.
+							tc.scopes.Declare(name, ti, ast.NewIdentifier(ex.Pos(), name), nil)
+						}
 						continue
 					}
 					if !t.IsType() {
